@@ -58,7 +58,7 @@ func isReturn(i ssa.Instruction) bool { _, ok := i.(*ssa.Return); return ok }
 // switched on by `on` instructions and off by `off` instructions holds on
 // every path from function entry (forward must-analysis).
 type holdState struct {
-	in map[*ssa.BasicBlock]bool
+	in      map[*ssa.BasicBlock]bool
 	on, off func(ssa.Instruction) bool
 }
 
@@ -125,8 +125,8 @@ func (h *holdState) At(ins ssa.Instruction) bool {
 // ifOn returns the If instructions whose condition is v (or !v), with the
 // successor index taken when v is true.
 func branchesOn(v ssa.Value) (out []struct {
-	If       *ssa.If
-	TrueSucc *ssa.BasicBlock
+	If        *ssa.If
+	TrueSucc  *ssa.BasicBlock
 	FalseSucc *ssa.BasicBlock
 }) {
 	if v.Referrers() == nil {
@@ -136,16 +136,16 @@ func branchesOn(v ssa.Value) (out []struct {
 		switch x := r.(type) {
 		case *ssa.If:
 			out = append(out, struct {
-				If       *ssa.If
-				TrueSucc *ssa.BasicBlock
+				If        *ssa.If
+				TrueSucc  *ssa.BasicBlock
 				FalseSucc *ssa.BasicBlock
 			}{x, x.Block().Succs[0], x.Block().Succs[1]})
 		case *ssa.UnOp:
 			if x.Op == token.NOT {
 				for _, o := range branchesOn(x) {
 					out = append(out, struct {
-						If       *ssa.If
-						TrueSucc *ssa.BasicBlock
+						If        *ssa.If
+						TrueSucc  *ssa.BasicBlock
 						FalseSucc *ssa.BasicBlock
 					}{o.If, o.FalseSucc, o.TrueSucc})
 				}
